@@ -63,7 +63,11 @@ SoftNames == { "no-secret-residue-on-dead-stack", "input-not-modified", "key-lef
                "crypt-password-length", "crypt-password", "phrase-bytes", "phrase-fits-the-public-buffer",
                "nfc-of-the-decomposed-phrase", "word-table-equals-published-list",
                "token-resolves-by-the-published-rule", "doubling-rule-is-multiplication-by-x",
-               "polynomial-evaluation-at-x", "no-other-source-of-time-randomness-or-memory" }
+               "polynomial-evaluation-at-x", "no-other-source-of-time-randomness-or-memory",
+               \* a dependency consulted where it has no business: nothing the model keeps depends on the answer, so
+               \* judging can go on (and see, say, the block such a call goes on to leak)
+               "time-only-in-create", "rand-only-in-create", "kdf-only-in-keygen-and-crypt",
+               "nfkd-only-for-string-arguments", "nfc-only-in-encode-of-composing-language" }
 
 VerdictOfBad(bad) ==
     IF bad = <<>> THEN "ok"
@@ -136,7 +140,9 @@ WellShapedKdfInputs(p) ==
 \* Two independent observations of a live seed: its serialised image and its KDF inputs.  If one of them
 \* agrees with the model's seed, the seed is right and the other observation's function is at fault.
 EntryCondsObs(p, s, tt, imgOK, kdfOK) ==
-    << Cond("seed-state", {"C13"} \cup tt, imgOK \/ kdfOK),
+    \* (C04: "the same seed reached by any path - created, decoded, loaded, decrypted - produces identical KDF inputs":
+    \* a seed that a decoder, the loader or the password operation leaves in a state neither observation recognises)
+    << Cond("seed-state", {"C13"} \cup tt \cup (IF tt \cap {"C08", "C06", "C12"} # {} THEN {"C04"} ELSE {}), imgOK \/ kdfOK),
        Cond("serialisation-of-the-seed", {"C06", "C13"} \cup tt, kdfOK => imgOK),
        Cond("kdf-inputs-of-the-seed", {"C04", "C13"} \cup PathTags(tt), imgOK => kdfOK),
        \* the 13 bytes after the secret are part of the KDF password: a constructor that leaves what the
@@ -201,20 +207,24 @@ TSkip ==
 
 FaultTags(op) ==
     CASE op \in {"decode", "decodex", "crypt", "load"} -> {"C14", "C13", "C19"}
+      [] op = "find" -> {"C08", "C07", "C14", "C19", "C13"}
       [] op = "encode" -> {"C17", "C14", "C01", "C13"}
       [] op = "inject" -> {"C19", "C07", "C13", "C14"}
       [] OTHER -> {"C13", "C14"}
 
 \* library state written by an operation that has none to write: in concurrent use the operation's own outputs are
 \* at the mercy of the other threads (a shared salt or phrase buffer ...), so its own property is gone as well
+\* (and whatever such an operation parks in static storage outlives the call: secrets, indices, phrase text,
+\* passwords and masks are all these operations handle - C16)
 GlobalWriteTags(op) ==
+    {"C16"} \cup
     CASE op = "keygen" -> {"C04"}
       [] op = "encode" -> {"C03", "C01", "C17"}
-      [] op \in {"decode", "decodex"} -> {"C09", "C01", "C08", "C02", "C05"}
+      [] op \in {"decode", "decodex"} -> {"C09", "C01", "C08", "C02", "C05", "C07"}
       [] op = "crypt" -> {"C12"}
       [] op \in {"load", "store"} -> {"C06"}
       [] op = "create" -> {"C18", "C11", "C10"}
-      [] op = "free" -> {"C15", "C16"}
+      [] op = "free" -> {"C15"}
       [] OTHER -> {}
 
 \* observers of the concurrent runs: a store into write-protected library data, a ThreadSanitizer report
